@@ -22,7 +22,8 @@ func init() {
 		Rule: "case = (Compare | CompareWeighted, unrooted reference tree, 1..8 unrooted trees on the same 4..10 (sometimes 60..130, incl. 63/64/65/127/128/129) taxa, named by one of several schemes, related to it by SPR moves, contractions, " +
 			"refinements, re-rooting and child rotation, optional taxon-mismatched record (foreign / missing / extra taxon) at a drawn position, tips on/off, " +
 			"identical-only shortcut on/off, feed (real reader goroutine or producer), thread count, schedule); executed under the drawn schedule, then swapped " +
-			"(one compared tree as reference, the reference as compared tree), then pairwise through Tree.CommonEdges. Oracle: set algebra on the split maps of the " +
+			"(one compared tree as reference, the reference as compared tree), then pairwise through Tree.CommonEdges, then on six clones of the already indexed " +
+			"reference each edited by exchanging two tip names (history: index, clone, edit, compare). Oracle: set algebra on the split maps of the " +
 			"independent reference model. Non-trivial: some compared tree shares ≥ 1 split with the reference and differs by ≥ 1 split; distinct = distinct " +
 			"(algorithm, options, reference text, compared texts)",
 		Gen: func(rt *rapid.T, tier string) any {
